@@ -5,7 +5,9 @@ Domain : (inject) generated models x generated states x 1-3 injections of nan, +
          middle / random) of qpos, qvel, act, ctrl, qfrc_applied, xfrc_applied; autoreset flag on/off; mj_step or
          mj_step1 + inputs + mj_step2; 0-3 settling steps before.  (unstable) honestly unstable models: timestep
          0.02-0.2, velocities x up to 1e5, controls x up to 1e6, stepped 60-200 times.  (fd) mjd_transitionFD - which steps
-         the model internally - on a state holding a bad value.
+         the model internally - on a state holding a bad value.  (forward) mj_forward / mj_inverse / mj_fwdPosition /
+         mj_step1+mj_step2 (autoreset off) called directly on a state with nan/inf/huge qpos, qvel, act or mocap_pos,
+         on models extended with site+refsite, slider-crank and body transmissions: no checks run before these calls.
 Oracle : documented semantics (computation "Stages" 1/24, programming/simulation "checking functions reset the simulation
          automatically", mj_resetData, mjtWarning, option/flag autoreset, mju_isBad "nan or abs(x) > mjMAXVAL"):
          * autoreset on: qpos/qvel/act/time finite after the step; a bad pre-step qpos (else qvel) => BADQPOS (BADQVEL)
@@ -16,6 +18,8 @@ Oracle : documented semantics (computation "Stages" 1/24, programming/simulation
          * autoreset off: counters increase, never decrease, time keeps running (no reset).
          * unstable family: every step leaves a finite state; whenever time jumps back a BADQ* warning is set and the data
            equals (reset state stepped once).
+         * forward family: the call returns (or raises a catchable mju_error) with pstack unchanged - never a sanitizer
+           report, a dead or a stalled worker.
          * never a sanitizer report / process death (ASan build in supervised workers), engine stack pointers unchanged.
 """
 import re
@@ -60,7 +64,7 @@ def main(ck):
     vb.build(v)
   def go(key, jobs, asan, out):
     out[key] = asanproc.run_jobs('checks.c30_worker', jobs, nproc=(5 if q else 8), asan=asan, tag='C30' + key,
-                                 timeout=(400 if q else 3600))
+                                 timeout=(400 if q else 3600), stall=(150 if q else 400))
 
   for rnd in range(4):
     if not jobs_rel and not jobs_asan:
@@ -86,6 +90,13 @@ def main(ck):
             ck.extra[k] = v
         elif res.get('harness'):
           raise RuntimeError('worker setup failed (%s): %s' % (job, res['stderr'][-1500:]))
+        elif asanproc.is_asan_compile_loop(res):
+          # ASan-build-only endless loop in mjCModel::Compile (instrumentation artefact): new shard seed, not judged
+          ck.discard('shard aborted: ASan-build compile loop (instrumentation artefact)')
+          ck.extra['asan_compile_loop_model'] = ((res.get('journal') or {}).get('xml') or '')[:2000]
+          if job.get('retries', 0) < 2:
+            retry.append(dict(job, shard=job['shard'] + 100 * (job.get('retries', 0) + 1), retries=job.get('retries', 0) + 1,
+                              n=max(10, job['n'] // 2)))
         else:
           if fp and not (res['frame'] and 'engine_derivative_fd' in (res['report'] or '')):
             fp = None
@@ -119,5 +130,8 @@ successor, first/last index) are stepped with autoreset on and off, via mj_step 
 lastinfo, the reset-then-step reference (bit-exact), the "bad ctrl = zero ctrl" law and finiteness are asserted. Honestly unstable
 models are stepped up to 200 times. Sampled, not exhaustive.'''
 LEVEL_NOTE = '''Trusted: verification build, reflection layer. Not covered: sleeping models (mj_checkVel/Acc skip sleeping dofs by
-design), plugins, delayed actuators (history buffers), mocap. Known finding exercised by the fd family: mjd_transitionFD/mjd_stepFD
-run the auto-reset inside their own open stack frame (see final report).'''
+design), plugins, delayed actuators (history buffers), mocap. Known findings (known_findings.json, reproducers under replays/C30): mjd_stepFD runs the
+auto-reset inside its own open stack frame; Newton/sparse raises a fatal mju_error on huge-but-accepted values; RK4 sub-stages are
+unchecked (non-finite state after mj_step); mj_transmission overruns actuator_moment on a non-finite state; the actuator derivative of
+the implicit integrators reads the raw (unclamped, un-zeroed) ctrl. Minor, reported only: with autoreset disabled every detection is
+counted twice (extra: autoreset_off_BADQPOS_increment_per_detection).'''
